@@ -26,10 +26,12 @@ def gen_cfg(sw: Stream, ra: Stream, methods=('pit', 'mps', 'sn'), weights=(4, 4,
         cfg['spec'] = arch.gen_mps(ra)
         if sw.chance(0.5):
             ctor['w_search'] = 'channel'
-            ctor['w_prec'] = list(sw.choice([(0, 2, 4, 8), (2, 4, 8), (0, 4, 8), (4, 8), (0, 8)]))
+            ctor['w_prec'] = list(sw.choice([(0, 2, 4, 8), (2, 4, 8), (0, 4, 8), (4, 8), (0, 8),
+                                             (0, 2, 3, 4, 5, 6, 7, 8), (8, 0, 4)]))
         else:
-            ctor['w_prec'] = list(sw.choice([(2, 4, 8), (4, 8), (8,), (2, 8), (8, 4, 2)]))
-        ctor['a_prec'] = list(sw.choice([(2, 4, 8), (8,), (4, 8), (8, 2)]))
+            ctor['w_prec'] = list(sw.choice([(2, 4, 8), (4, 8), (8,), (2, 8), (8, 4, 2), (2, 3, 4, 5, 6, 7, 8),
+                                             (3, 5, 7)]))
+        ctor['a_prec'] = list(sw.choice([(2, 4, 8), (8,), (4, 8), (8, 2), (2, 3, 4, 5, 6, 7, 8), (7, 5)]))
         if sw.chance(0.4):
             ctor['temperature'] = sw.choice([0.5, 2.0, 5.0])
         if sw.chance(0.3):
